@@ -63,14 +63,20 @@ def isEof : Pat → Bool
   | .eof => true
   | _ => false
 
-/-- arms of a state that has an `eoc` arm: do nothing and stay, or start with `emit_text` -/
+/-- arms of a state that has an `eoc` arm: do nothing and stay, or start with `emit_text`; the `eof` arm does
+the latter (so that no text is left undelivered at the end of the document) -/
 def debtArmOk (arm : Arm) : Bool :=
-  match arm.pat, arm.body with
+  (match arm.pat, arm.body with
   | .eoc, _ => true
   | _, .seq ⟨[], none⟩ => true
   | _, .seq ⟨⟨.emitText, true⟩ :: _, _⟩ => true
   | _, .seq ⟨⟨.emitTextAndEof, true⟩ :: _, _⟩ => true
-  | _, _ => false
+  | _, _ => false) && (!isEof arm.pat || arm.body != .seq ⟨[], none⟩)
+
+/-- at the end of a (not last) chunk the `eoc` arm is selected, not the `eof` arm -/
+def eocFirst : List Arm → Bool
+  | [] => true
+  | a :: rest => if isEoc a.pat then true else if isEof a.pat then false else eocFirst rest
 
 /-- enter actions: no emission, no read of the input -/
 def enterOk : ActName → Bool
@@ -91,7 +97,8 @@ def stateOk (t : Table) (fs : FlagMap) (st : StateId) (sd : StateDef) : Bool :=
   (!(sd.arms.any fun a => isEoc a.pat) ||
     (sd.enter.isEmpty && (fs st).2 == Ab.none && (fs st).1 == Ab.none && !(sd.arms.any fun a => isSeqPat a.pat) &&
      sd.arms.all debtArmOk)) &&
-  (sd.memchr.isNone || !(sd.arms.any fun a => isSeqPat a.pat))
+  (sd.memchr.isNone || !(sd.arms.any fun a => isSeqPat a.pat)) &&
+  (!(sd.arms.any fun a => isEoc a.pat) || eocFirst sd.arms)
 
 /-! ### Dataflow analysis (computes the flags; its result is *checked*, not trusted) -/
 
